@@ -88,6 +88,10 @@ structure Env where
   /-- generated from the current source: does RULE_CAPTURE_NUM, in accumulate mode without back-references, append the
       matched TEXT instead of the to-string of the captured NUMBER?  `false` on a correct tree. -/
   numRaw : Bool := false
+  /-- `janet_vm.stackn` when the match was entered: RULE_REPLACE / RULE_MATCHTIME charge the depth the match has used to the
+      VM's C stack guard while a capture FUNCTION runs (`used = JANET_RECURSION_GUARD - s->depth + 1`) and raise
+      "C stack recursed too deeply" when `stackn + used` exceeds the guard, i.e. when `s->depth <= stackn`. -/
+  stackn : Nat := 0
 
 /-- The mutable part of PegState. -/
 structure St where
@@ -174,6 +178,13 @@ def applyFn (name : String) (xs : List Val) : Except Err Val :=
   else if name == "f-false" then .ok (.bool false)
   else if name == "f-two" then .ok (.bool (xs.length ≥ 2))
   else .error .call
+
+/-- the C-stack charge around the call of a capture function in RULE_REPLACE / RULE_MATCHTIME (`depth` = `s->depth` there,
+    counted down from JANET_RECURSION_GUARD): `stackn + (GUARD - depth + 1) > GUARD` iff `depth ≤ stackn` -/
+def callGuard (E : Env) (depth : Nat) (v : Val) : Except Err Unit :=
+  match v with
+  | .fn _ => if depth ≤ E.stackn then .error (.user (.str (bytesOf "C stack recursed too deeply"))) else .ok ()
+  | _ => .ok ()
 
 /-! ### text access: every read goes through these guarded accessors -/
 
